@@ -99,7 +99,7 @@ fn check_b(acc: &mut Acc, b: u64) {
     if !matches!(guard(|| CKCNumber::from_binary_card(b)), Ok(w) if w == model_to_word(b)) {
         match confirm(judge, Case::new("from_binary_card", &[b])) {
             Some(v) => acc.violate(v),
-            None => monitor::machinery_fail("C14 mismatch not reproduced"),
+            None => super::unreproduced("C14 mismatch not reproduced"),
         }
     }
 }
@@ -139,7 +139,7 @@ pub fn run(ctx: &Ctx, rep: &mut Report) {
                     }
                 }
                 if stored == 0 {
-                    monitor::machinery_fail("C14 from_ckc mismatch not reproduced");
+                    super::unreproduced("C14 from_ckc mismatch not reproduced");
                 }
                 acc.viol_count = acc.viol_count.max(nbad);
             }
@@ -223,7 +223,7 @@ pub fn run(ctx: &Ctx, rep: &mut Report) {
                     if !matches!(guard(|| CKCNumber::from_binary_card(b)), Ok(w) if w == e) {
                         match confirm(judge, Case::new("from_binary_card", &[b])) {
                             Some(v) => acc.violate(v),
-                            None => monitor::machinery_fail("C14 window mismatch not reproduced"),
+                            None => super::unreproduced("C14 window mismatch not reproduced"),
                         }
                     }
                 }
